@@ -211,6 +211,14 @@ func blockDetail(s *nom.AccountBlock) M {
 func (w *world) settle() {
 	for round := 0; round < 12 && !w.dead; round++ {
 		if err := w.nd.MomentumOnly(); err != nil {
+			if strings.HasPrefix(err.Error(), "no key for producer") {
+				// a limit of the harness, not a failure of the node: the history made a pillar produce under an address the
+				// harness holds no key for (a registration / UpdatePillar naming somebody else's or a contract's address as
+				// producer) and that pillar is elected now: the history ends here
+				w.out.Count("history-ended:elected-producer-address-without-key")
+				w.dead = true
+				return
+			}
 			w.out.Oracle(false, "momentum-production-failed", M{"err": err.Error()})
 			w.dead = true
 			return
